@@ -454,10 +454,12 @@ def gen_labsfit(rng, design, imat, fullrank, invertible):
     n = rng.choice([5, 6, 8, 10])
     p = rng.choice([2, 2, 3, 4])
     n = max(n, p + 2)
-    nv = rng.choice([1, 2, 3])
+    nv = rng.choice([1, 2, 3, 4, 6])
     q = rng.randint(1, p)
     model = rng.choice(["spherical"] * 4 + ["ar1"])
-    return {"kind": "labsfit", "X": design(rng, n, p), "Y": imat(rng, n, nv, -8, 8),
+    return {"grid": rng.choice({1: [[1, 1]], 2: [[1, 2], [2, 1]], 3: [[3, 1], [1, 3]], 4: [[2, 2], [2, 2], [4, 1]],
+                               6: [[2, 3], [3, 2], [1, 6]]}[nv]),
+            "kind": "labsfit", "X": design(rng, n, p), "Y": imat(rng, n, nv, -8, 8),
             "C": fullrank(rng, q, p), "G": invertible(rng, q), "oned": q == 1 and rng.random() < 0.5,
             "ty": rng.choice(["t", "t", "F", "F", "tmin", "foo"]), "baseline": rng.choice([0.0, 0.0, 1.0, -0.5]),
             "tiny": rng.choice(TINYS), "dofmax": rng.choice(DOFMAXS), "axis": rng.choice([0, 0, 1]),
@@ -509,6 +511,27 @@ def run_labsfit(c):
             tags.append("save-load")
         finally:
             shutil.rmtree(d, ignore_errors=True)
+    if fail is None and c.get("grid") and c["model"] == "spherical":
+        # the same voxels presented on a grid (two voxel axes, the time axis where `axis` says): every voxel keeps
+        # its own estimate, variance and statistic - the layout of the voxels is not part of the model
+        a_, b_ = c["grid"]
+        Yg = Y.reshape(n, a_, b_)
+        if axis == 1:
+            Yg = np.ascontiguousarray(np.transpose(Yg, (1, 0, 2)))
+        try:
+            cong = lg.glm(Yg, X, **kw).contrast(cc, type=ty, tiny=tiny, dofmax=dofmax)
+            eg = np.asarray(cong.effect, float).reshape(np.asarray(con.effect).shape[0] if np.ndim(con.effect) > 1 else 1, -1)
+            ef = np.asarray(con.effect, float).reshape(eg.shape[0], -1)
+            vg = np.asarray(cong.variance, float); vf = np.asarray(con.variance, float)
+            vg = vg.reshape(vf.shape[:-1] + (-1,)) if vf.ndim >= 1 else vg
+            if not np.allclose(eg, ef, rtol=1e-10, atol=1e-12 * (1 + np.abs(ef).max())):
+                fail = f"labs glm on a {a_}x{b_} voxel grid (axis={axis}): contrast effect differs from the flat layout"
+            elif vg.shape != vf.shape or not np.allclose(vg, vf, rtol=1e-9, atol=1e-300):
+                fail = (f"labs glm on a {a_}x{b_} voxel grid (axis={axis}, type={ty}, {q} rows): contrast variance "
+                        f"{vg.tolist()} differs from the flat layout {vf.tolist()}")
+            tags.append(f"grid={'x'.join(map(str, c['grid']))}")
+        except Exception as ex:      # noqa: BLE001
+            fail = f"labs glm on a {a_}x{b_} voxel grid (axis={axis}) raised {type(ex).__name__}: {ex}"
     summ = con.summary()
     if not (summ["effect"] is con.effect and summ["variance"] is con.variance and summ["dof"] == con.dof):
         fail = "labs contrast.summary() does not report the contrast's effect, variance and dof"
